@@ -32,9 +32,17 @@ def tests_pass(diff):
 def evaluate(dest, prop):
     diff = os.path.join(dest, "patch.diff")
     props, files = props_for(diff, prop)
-    res = run_checks(diff, props)
     meta = json.load(open(os.path.join(dest, "meta.json")))
-    meta["files"] = files; meta["checks"] = res
+    only = os.environ.get("BENIGN_ONLY", "").split()   # re-run only these checks (after their harnesses changed), keep the other results
+    if only:
+        props = [p for p in props if p in only]
+        if not props: return
+    res = run_checks(diff, props)
+    if only and isinstance(res, dict) and isinstance(meta.get("checks"), dict):
+        merged = dict(meta["checks"]); merged.update(res); res_all = merged
+    else:
+        res_all = res
+    meta["files"] = files; meta["checks"] = res_all
     json.dump(meta, open(os.path.join(dest, "meta.json"), "w"), indent=1)
     print(os.path.relpath(dest, V), {k: (v if "result" not in v else v["result"] + ((" " + ",".join(v["kinds"])[:120]) if v["kinds"] else "")) for k, v in res.items()} if isinstance(res, dict) else res, flush=True)
 
@@ -60,5 +68,5 @@ if __name__ == "__main__":
     elif len(sys.argv) >= 2 and sys.argv[1] == "run":
         for d in sorted(glob.glob(os.path.join(V, "benign", "C*", "*"))):
             p = os.path.basename(os.path.dirname(d))
-            if len(sys.argv) > 2 and p not in sys.argv[2:]: continue
+            if len(sys.argv) > 2 and p not in sys.argv[2:] and os.path.relpath(d, os.path.join(V, "benign")) not in sys.argv[2:]: continue
             evaluate(d, p)
